@@ -1,8 +1,8 @@
 (* CliWrite.v — MODEL of the route `write_object_file` (main.rs, since F39 / F41) takes for each KIND of
    destination and each combination of operating-system faults, refining the oracle of Cli.v; and the
    THEOREM that says when the one outcome C08 excludes can still arise: only when the write itself
-   stops half-way AND the destination is written directly - which happens for a device / pipe / dangling
-   link / directory, or when the directory refuses the temporary file. *)
+   stops half-way AND the destination is written directly - which, since devices, pipes and directories
+   keep no half-written data, comes down to: the directory refuses the temporary file. *)
 From Coq Require Import List NArith Bool Lia.
 From Lace Require Import Word Asm Cli CliProofs.
 Import ListNotations.
@@ -13,7 +13,7 @@ Inductive dkind :=
 | KAbsent            (* nothing there (canonicalize fails, metadata: NotFound) *)
 | KRegular           (* a regular file *)
 | KLinkRegular       (* a symbolic link (chain) to a regular file: resolved, the file behind it is replaced *)
-| KDangling          (* a symbolic link to nothing: canonicalize fails, the link itself is not a file *)
+| KDangling          (* a symbolic link to nothing yet: resolved like any link, the file it names is created (F42) *)
 | KSpecial           (* device, pipe, socket *)
 | KDir.              (* a directory (or a link to one) *)
 
@@ -30,8 +30,8 @@ Inductive route := Temp | Direct.
 
 Definition route_of (k : dkind) : route :=
   match k with
-  | KAbsent | KRegular | KLinkRegular => Temp
-  | KDangling | KSpecial | KDir => Direct
+  | KAbsent | KRegular | KLinkRegular | KDangling => Temp
+  | KSpecial | KDir => Direct
   end.
 
 (** The direct write: create (truncating a file that keeps data), then write. *)
@@ -69,8 +69,7 @@ Qed.
 (** Exactly when the excluded outcome arises. *)
 Theorem truncated_iff k fl n :
   outcome_of k fl = WWriteFailTruncated n <->
-  write_stops fl = Some n /\ create_refused fl = false /\
-  (k = KDangling \/ (route_of k = Temp /\ temp_refused fl = true)).
+  write_stops fl = Some n /\ create_refused fl = false /\ route_of k = Temp /\ temp_refused fl = true.
 Proof.
   unfold outcome_of, direct_outcome. split.
   - intros H.
@@ -81,22 +80,20 @@ Proof.
     all: destruct (rename_refused fl) eqn:Hn.
     all: destruct k; cbn [route_of] in H; try discriminate H.
     all: injection H as ->; repeat split; auto.
-  - intros [Hw [Hc [Hk|[Hr Ht]]]].
-    + subst k. cbn [route_of]. rewrite Hc, Hw. reflexivity.
-    + destruct k; cbn [route_of] in Hr; try discriminate; rewrite Ht, Hc, Hw; reflexivity.
+  - intros [Hw [Hc [Hr Ht]]].
+    destruct k; cbn [route_of] in Hr; try discriminate; rewrite Ht, Hc, Hw; reflexivity.
 Qed.
 
-(** With one fault only (any single field set, the others clear) the destination is never half-written,
-    unless it is a dangling link - whose target does not exist beforehand. *)
+(** With one fault only (any single field set, the others clear) the destination is never half-written. *)
 Definition single_fault (fl : faults) : Prop :=
   (if temp_refused fl then 1 else 0) + (if create_refused fl then 1 else 0) +
   (match write_stops fl with Some _ => 1 | None => 0 end) + (if takes_no_data fl then 1 else 0) +
   (if rename_refused fl then 1 else 0) <= 1.
 
-Theorem single_fault_preserving k fl : single_fault fl -> k <> KDangling -> preserving (outcome_of k fl).
+Theorem single_fault_preserving k fl : single_fault fl -> preserving (outcome_of k fl).
 Proof.
-  intros Hs Hk. destruct (outcome_of k fl) eqn:E; try exact I.
-  apply truncated_iff in E as [Hw [_ [->|[_ Ht]]]]; [contradiction|].
+  intros Hs. destruct (outcome_of k fl) eqn:E; try exact I.
+  apply truncated_iff in E as [Hw [_ [_ Ht]]].
   unfold single_fault in Hs. rewrite Hw, Ht in Hs.
   destruct (create_refused fl), (takes_no_data fl), (rename_refused fl); cbn in Hs; lia.
 Qed.
@@ -105,11 +102,11 @@ Qed.
 Theorem compile_kinds : forall feat src dest f k fl,
   let '(e, f') := compile_cmd feat src dest f (outcome_of k fl) in
   (e = 0 -> exists im, assembles feat src = Ok im /\ f' dest = Some (compile_bytes im)) /\
-  (e <> 0 -> (route_of k = Temp /\ temp_refused fl = false \/ single_fault fl /\ k <> KDangling) -> forall p, f' p = f p).
+  (e <> 0 -> (route_of k = Temp /\ temp_refused fl = false \/ single_fault fl) -> forall p, f' p = f p).
 Proof.
   intros feat src dest f k fl. pose proof (compile_all_or_nothing feat src dest f (outcome_of k fl)) as H.
   destruct (compile_cmd feat src dest f (outcome_of k fl)) as [e f']. destruct H as [H0 [H1 _]].
-  split; [exact H0|]. intros He [[Hr Ht]|[Hs Hk]]; apply H1; try exact He.
+  split; [exact H0|]. intros He [[Hr Ht]|Hs]; apply H1; try exact He.
   - apply temp_route_preserving; assumption.
   - apply single_fault_preserving; assumption.
 Qed.
